@@ -455,8 +455,13 @@ func c16CloseAbandoned(tcp bool) func() {
 		} else {
 			sock, ep = dialUDP()
 		}
-		for i := 0; i < 3; i++ {
-			ep.Inject(fs[i%3], nil)
+		if tcp {
+			// one segment: the stream reader buffers the later frames
+			ep.Inject(append(append(append([]byte(nil), fs[0]...), fs[1]...), fs[2]...), nil)
+		} else {
+			for i := 0; i < 3; i++ {
+				ep.Inject(fs[i%3], nil)
+			}
 		}
 		if v, ok := sock.Inbound().Recv2(); ok {
 			mc.Log(RxSvc{svcHex(v)})
